@@ -251,7 +251,7 @@ var actionLogName = map[string]string{actValset: "Message_UpdateValset", actSLC:
 // judge is called after every block with the success effects that appeared in it and its log.
 func (w *wd) judge(events []event, logs []chain.LogLine, what string) {
 	rec := w.rec
-	type obs struct{ ran, noConsensus, receiptRejected, integrityFailed bool }
+	type obs struct{ ran, committed, noConsensus, receiptRejected, integrityFailed bool }
 	o := map[*attempt]*obs{}
 	for _, a := range w.live {
 		if a.done || a.evidenceAt == 0 {
@@ -262,10 +262,6 @@ func (w *wd) judge(events []event, logs []chain.LogLine, what string) {
 		id := strconv.FormatUint(a.MsgID, 10)
 		for _, l := range logs {
 			switch {
-			case l.Msg == "Removed message from queue" && kvHas(l, "msg-id", id):
-				// attestMessageWrapper removes the message (on its cache context) exactly when
-				// the evidence reached consensus, i.e. when the per-action attester was invoked
-				ob.ran = true
 			case l.Msg == "Consensus not achieved." && kvHas(l, "msg-id", id):
 				ob.noConsensus = true
 			case (l.Msg == "Transaction execution failed" || l.Msg == "Failed to get transaction receipt") && kvHas(l, "message-id", id):
@@ -274,6 +270,12 @@ func (w *wd) judge(events []event, logs []chain.LogLine, what string) {
 				ob.integrityFailed = true
 			}
 		}
+		// routerAttester reports every attested message to the metrix module on the attestation's
+		// cache context: a relay record for this message id exists exactly when the per-action
+		// attester ran AND its cache context was committed (result nil / not-verified / tx-failed).
+		// (The queue's "Removed message" log line is not used: DeleteJob / pruning log it too.)
+		ob.committed = w.relayRecorded(a)
+		ob.ran = ob.committed || ob.receiptRejected || ob.integrityFailed
 	}
 
 	// (A) acceptance decisions
@@ -295,7 +297,7 @@ func (w *wd) judge(events []event, logs []chain.LogLine, what string) {
 		}
 		a.ranN++
 		rec.Eval(1)
-		accepted := !ob.receiptRejected && !ob.integrityFailed
+		accepted := ob.committed && !ob.receiptRejected && !ob.integrityFailed
 		rs := w.reasons(a)
 		first := !a.judged
 		a.judged = true
@@ -419,7 +421,10 @@ func (w *wd) judge(events []event, logs []chain.LogLine, what string) {
 			}
 			continue
 		}
-		if ob := o[a]; ob != nil && ob.ran && !a.stuck {
+		if ob := o[a]; ob != nil && !ob.noConsensus && !a.stuck {
+			// evidence with consensus, yet the message is still queued: the attestation returned
+			// an error; it will be attested again in every block and stops the loop for all
+			// messages behind it
 			a.stuck = true
 			w.blocked[a.Chain] = true
 			rec.Count("attempts_left_in_queue_after_attestation", 1)
@@ -441,4 +446,20 @@ func classGroup(a *attempt) string {
 		g += "+receipt:" + a.Receipt
 	}
 	return g
+}
+
+func (w *wd) relayRecorded(a *attempt) bool {
+	if a.assignee == nil {
+		return false
+	}
+	h, err := w.c.App.MetrixKeeper.GetValidatorHistory(w.c.Ctx(), a.assignee.ValAddr())
+	if err != nil || h == nil {
+		return false
+	}
+	for _, r := range h.Records {
+		if r.MessageId == a.MsgID {
+			return true
+		}
+	}
+	return false
 }
